@@ -42,13 +42,13 @@ func (c16) NumCases(tier string) int {
 }
 
 func (c16) Rule() string {
-	return "four case kinds by idx%10. [6-9] TRANSPARENCY history: generated federation layout (as C01, no mutations) over a hash-defined universe with an entity id pool of 2-5; two real ExecutionEngines over identical semantic subgraphs, one given a recording in-memory caching.Cache through resolve.Context.SetResponseCache, one without; a history of 10-16 requests = 2-3 generated base operations (each sends >=1 _entities request) plus requests DERIVED from earlier ones (exact repeat; new lookup ids from the pool -> other / overlapping representation sets; new variable values; one leaf added / dropped in a nested selection -> other selection; root reordered / extended; a nullable variable flipped between omitted and explicit null); every subgraph response carries a Cache-Control header drawn from a generated grammar (85% storable) or from a plain storable list; the cache misbehaves by rotating policy (none | GetMany errors, also with an answer attached | SetMany errors with nothing / everything / a prefix written | withheld keys and empty answers = partial hits | evictions between requests | all mixed). In every second history (and all concurrent ones) each subgraph answer of the cached gateway is delayed 40-200us so that parallel fetches overlap (schedule only, no verdict depends on it). Oracle: canonical JSON of response i with cache == response i without cache (re-checked for instability of the cache-less run), Execute never fails or panics when the cache-less run does not. [3-5] STORABILITY history: same, 50% storable headers, and subgraph faults per (request, subgraph, operation): semantic body under status 201/203/206/300/304/399/400/404/500/503, body with data AND errors, errors without data, empty 500, first entity null (not found); every SetMany item is attributed to the subgraph response(s) of the same gateway request whose _entities values it carries (positions through the preceding GetMany key list) and must come from a 2xx, error-free response whose header — read by an independent RFC 9111 reference tokeniser — has `public`, none of no-store/no-cache/private, and ttl <= first s-maxage else first max-age (1*DIGIT, token or quoted, saturating) else the request's default TTL; malformed headers are judged in the safe direction only (refusal word or no `public` anywhere), invalid delta-seconds by the weak bound max(named lifetimes, default). [1-2] CONCURRENT history: 3-6 goroutines execute rotations of one history against one shared cache (header a function of the response body, light cache faults), responses compared with the sequential cache-less run, all stores judged, -race. [0] PARSER corpus: 4000 generated header values (+ the exhaustive set of all ordered subsets of {public, private, no-store, no-cache, max-age=60, s-maxage=30} in the first case) straight through caching.TTL against the reference. Non-trivial: history = >=1 response compared after a full cache hit was served (storability: >=1 store judged and >=1 unstorable entity response); parser = both decisions seen. Distinct by hash of (layout, request text, variables, position) resp. header value."
+	return "four case kinds by idx%10. [6-9] TRANSPARENCY history: generated federation layout (as C01, no mutations) over a hash-defined universe with an entity id pool of 2-5; two real ExecutionEngines over identical semantic subgraphs, one given a recording in-memory caching.Cache through resolve.Context.SetResponseCache, one without; a history of 10-16 requests = 2-3 generated base operations (each sends >=1 _entities request) plus requests DERIVED from earlier ones (exact repeat; new lookup ids from the pool -> other / overlapping representation sets; new variable values; one leaf added / dropped in a nested selection -> other selection; root reordered / extended; a nullable variable flipped between omitted and explicit null); every subgraph response carries a Cache-Control header drawn from a generated grammar (85% storable) or from a plain storable list; the cache misbehaves by rotating policy (none | GetMany errors, also with an answer attached | SetMany errors with nothing / everything / a prefix written | withheld keys and empty answers = partial hits | evictions between requests | all mixed). In every second history (and all concurrent ones) each subgraph answer of the cached gateway is delayed 40-200us so that parallel fetches overlap (schedule only, no verdict depends on it). Oracle: canonical JSON of response i with cache == response i without cache (re-checked for instability of the cache-less run), Execute never fails or panics when the cache-less run does not. [3-5] STORABILITY history: same, 50% storable headers, and subgraph faults per (request, subgraph, operation): semantic body under status 201/203/206/300/304/399/400/404/500/503, body with data AND errors, errors without data, empty 500, first entity null (not found), and 2xx answers to entity fetches that are unusable (non-JSON, truncated JSON, {\"data\":null}, {\"data\":{}}, one entity too few / too many; also alone in a third of the transparency histories) — under a content-altering fault response i is compared (error entries as a multiset) whenever both gateways sent the same requests and so received the same faulted answers, the rendered error response of the cache-less engine being the reference, and Execute returning an error only with the cache is a violation; every SetMany item is attributed to the subgraph response(s) of the same gateway request whose _entities values it carries (positions through the preceding GetMany key list) and must come from a 2xx, error-free response whose header — read by an independent RFC 9111 reference tokeniser — has `public`, none of no-store/no-cache/private, and ttl <= first s-maxage else first max-age (1*DIGIT, token or quoted, saturating) else the request's default TTL; malformed headers are judged in the safe direction only (refusal word or no `public` anywhere), invalid delta-seconds by the weak bound max(named lifetimes, default). [1-2] CONCURRENT history: 3-6 goroutines execute rotations of one history against one shared cache (header a function of the response body, light cache faults), responses compared with the sequential cache-less run, all stores judged, -race. [0] PARSER corpus: 4000 generated header values (+ the exhaustive set of all ordered subsets of {public, private, no-store, no-cache, max-age=60, s-maxage=30} in the first case) straight through caching.TTL against the reference. Non-trivial: history = >=1 response compared after a full cache hit was served (storability: >=1 store judged and >=1 unstorable entity response); parser = both decisions seen. Distinct by hash of (layout, request text, variables, position) resp. header value."
 }
 
 func (c16) Assumptions() []string {
 	return []string{
 		"subgraph data is static (hash-defined universe), so the cache-less engine over the same subgraphs is the reference; cache entries never expire in the recording cache (TTLs are recorded, not enforced)",
-		"a subgraph fault that changes the content of a response (errors, empty body) makes response i incomparable when the cache-less run received it; faults that only change the HTTP status keep the comparison",
+		"a subgraph fault that changes the content of a response (errors, empty / unusable body) makes response i incomparable only when the cached gateway did not send exactly the requests the cache-less gateway sent (a hit spared it the faulted request); otherwise both received the same faulted answers and the comparison is kept; faults that only change the HTTP status always keep the comparison",
 		"successful = HTTP 2xx; 1xx statuses are not generated (net/http never returns them as final responses)",
 		"header field lines are combined with \", \" (RFC 9110 §5.3); where the combined value is not a well-formed #cache-directive list only the safe direction is demanded; a deciding s-maxage/max-age with invalid delta-seconds is judged by the weak bound only; duplicates: the first occurrence decides (RFC 9111 §4.2.1)",
 		"operations steer away from C01-F1 (union fragment in non-union parent); requests whose cache-less run fails to plan/execute (e.g. C01-F2) are skipped and counted",
@@ -64,6 +64,7 @@ func (c16) RequiredCounters(string) []string {
 		"get_errors_injected", "set_errors_injected", "partial_answers_injected", "evicted_entries",
 		"store_items_judged_ok", "entity_responses_unstorable", "entity_responses_unstorable_not_stored",
 		"concurrent_executions", "concurrent_responses_compared",
+		"responses_compared_under_same_content_altering_subgraph_fault", "unusable_2xx_entity_answers_with_cache", "unusable_2xx_entity_answers_on_batch_fetch", "unusable_2xx_entity_answers_on_single_fetch",
 		"parser_headers", "parser_positive_decisions", "parser_negative_decisions",
 	}
 }
@@ -114,6 +115,48 @@ func canonResponse(res *fed.Result) string {
 		return "<not JSON> " + truncate(res.Raw, 500)
 	}
 	return ref.Canon(v)
+}
+
+// canonResponseSortedErrors: canonical response with the errors array sorted (a multiset).
+func canonResponseSortedErrors(res *fed.Result) string {
+	v, err := ref.DecodeJSON([]byte(res.Raw))
+	if err != nil {
+		return "<not JSON> " + truncate(res.Raw, 500)
+	}
+	if m, ok := v.(map[string]any); ok {
+		if es, ok := m["errors"].([]any); ok {
+			cs := make([]string, len(es))
+			for i, e := range es {
+				cs[i] = ref.Canon(e)
+			}
+			sort.Strings(cs)
+			out := make([]any, len(cs))
+			for i, c := range cs {
+				out[i] = c
+			}
+			m["errors"] = out
+		}
+	}
+	return ref.Canon(v)
+}
+
+// sameRequests: both gateways sent the same multiset of (subgraph, body) and got the same fault on each.
+func sameRequests(a, b []*fed.Request) bool {
+	if len(a) != len(b) {
+		return false
+	}
+	cnt := map[string]int{}
+	for _, q := range a {
+		cnt[q.Subgraph+"|"+q.RawBody+"|"+q.Faulted]++
+	}
+	for _, q := range b {
+		k := q.Subgraph + "|" + q.RawBody + "|" + q.Faulted
+		cnt[k]--
+		if cnt[k] < 0 {
+			return false
+		}
+	}
+	return true
 }
 
 func firstDiff(a, b string) string {
@@ -288,10 +331,17 @@ type history struct {
 	pStor    int
 	plain    bool
 	subFault bool
-	bodyHdr  bool // header is a function of (subgraph, body) only (concurrent mode)
-	cache    *recCache
-	defTTL   []time.Duration
+	// unusableOnly: (transparency histories) the only subgraph faults are unusable 2xx answers to entity fetches
+	unusableOnly bool
+	bodyHdr      bool // header is a function of (subgraph, body) only (concurrent mode)
+	cache        *recCache
+	defTTL       []time.Duration
 }
+
+// unusable2xx: 2xx answers to an entity fetch that the engine cannot use (and the cache collector
+// cannot read): the cache-less engine renders a "Failed to fetch" error entry (or a benign null), and
+// so must the engine with a cache.
+var unusable2xx = []string{"ok-nonjson", "ok-truncated", "data-null", "data-empty", "fewer-entities", "more-entities"}
 
 func (h *history) faultFor(_ int, sub, query string) *fed.Fault {
 	if !h.subFault {
@@ -300,6 +350,16 @@ func (h *history) faultFor(_ int, sub, query string) *fed.Fault {
 	i := h.cur.Load()
 	x := h64(h.salt, "fault", fmt.Sprint(i), sub, query)
 	roll := int(x % 100)
+	isEnt := strings.Contains(query, "_entities")
+	if h.unusableOnly {
+		if isEnt && roll < 12 {
+			return &fed.Fault{Kind: unusable2xx[int((x>>16)%uint64(len(unusable2xx)))]}
+		}
+		return nil
+	}
+	if isEnt && roll >= 60 && roll < 78 {
+		return &fed.Fault{Kind: unusable2xx[int((x>>16)%uint64(len(unusable2xx)))]}
+	}
 	switch {
 	case roll < 25:
 		return &fed.Fault{Kind: "status-keep-body", Status: statusFaults[int((x>>16)%uint64(len(statusFaults)))]}
@@ -764,6 +824,9 @@ func runHistory(c *fw.Ctx, idx int, kind string) fw.Result {
 	case "transparency":
 		h.plain = r.IntN(2) == 0
 		h.pStor = 85
+		if r.IntN(3) == 0 {
+			h.subFault, h.unusableOnly = true, true
+		}
 		switch (idx / 10) % 6 {
 		case 1:
 			faults, policy = cacheFaults{GetErr: 300}, "get-errors"
@@ -1038,10 +1101,31 @@ func (h *history) runSequential(gwN, gwC *fed.Gateway, layoutDetail func() map[s
 		storesJudged += h.judgeStores(calls, resps, defaultOf, detail)
 		h.classifyEntityResponses(calls, resps, defaultOf)
 		// ---- transparency
-		if altered {
+		sameReqs := sameRequests(rn.Requests, rc.Requests)
+		if altered && !sameReqs {
+			// the cached gateway was spared a faulted request (or sent other requests): its response may legitimately differ
 			res.Count("responses_not_compared_content_altering_subgraph_fault", 1)
 		} else {
 			want, got := canonResponse(rn), canonResponse(rc)
+			if altered {
+				// both gateways received the same faulted answers: the rendered error response of the cache-less
+				// engine IS the reference (error entries compared as a multiset: parallel fetches may reorder them)
+				want, got = canonResponseSortedErrors(rn), canonResponseSortedErrors(rc)
+				res.Count("responses_compared_under_same_content_altering_subgraph_fault", 1)
+				for _, q := range rc.Requests {
+					for _, k := range unusable2xx {
+						if q.Faulted == k {
+							res.Count("unusable_2xx_entity_answers_with_cache", 1)
+							res.Observe("unusable_2xx_kinds_x_header", k+" / "+hdrOf[q].Intent)
+							if len(q.Reps) > 1 {
+								res.Count("unusable_2xx_entity_answers_on_batch_fetch", 1)
+							} else {
+								res.Count("unusable_2xx_entity_answers_on_single_fetch", 1)
+							}
+						}
+					}
+				}
+			}
 			res.Count("responses_compared", 1)
 			if rn.Raw == rc.Raw {
 				res.Count("responses_byte_identical", 1)
@@ -1067,7 +1151,7 @@ func (h *history) runSequential(gwN, gwC *fed.Gateway, layoutDetail func() map[s
 				stable := true
 				for k := 0; k < 2; k++ {
 					again, pa := safeExec(gwN, context.Background(), rq)
-					if pa != nil || again.Err != nil || canonResponse(again) != want {
+					if pa != nil || again.Err != nil || (canonResponse(again) != want && canonResponseSortedErrors(again) != want) {
 						stable = false
 					}
 				}
